@@ -537,72 +537,82 @@ func TestC13WebSocketCancel(t *testing.T) {
 		opt.SendTimeout = rapid.SampledFrom([]time.Duration{10 * time.Second, 30 * time.Second}).Draw(t, "send_timeout")
 		opt.PingDuration = rapid.SampledFrom([]time.Duration{0, time.Hour}).Draw(t, "ping")
 		peerSends := rapid.Bool().Draw(t, "peer_keeps_sending")
-		desc := map[string]any{"send_timeout": opt.SendTimeout.String(), "ping": opt.PingDuration.String(), "peer_keeps_sending": peerSends, "ending": "request context cancelled while every loop is blocked"}
-		attempt := func() (time.Duration, bool) {
-			f := &flooder{started: make(chan struct{}), ended: make(chan time.Time, 1)}
-			relay := mocrelay.NewRelay(f, opt)
-			returned := make(chan time.Time, 1)
-			baseCtx, cancelBase := context.WithCancel(context.Background())
-			defer cancelBase()
-			srv := httptest.NewUnstartedServer(http.HandlerFunc(func(w http.ResponseWriter, r *http.Request) {
-				relay.ServeHTTP(w, r)
-				returned <- time.Now()
-			}))
-			srv.Config.BaseContext = func(net.Listener) context.Context { return baseCtx }
-			srv.Start()
-			defer func() {
-				srv.CloseClientConnections()
-				srv.Close()
-			}()
-			c, err := dial("ws" + strings.TrimPrefix(srv.URL, "http"))
-			if err != nil {
-				t.Fatalf("dial: %v", err)
+		// a strict receive limit: one frame every 10-20 s after a burst of 1-2; the peer that keeps
+		// sending has used the burst up, so the read loop is waiting for a token at the cancellation
+		for _, rateLimited := range []bool{false, true} {
+			opt, peerSends := *opt, peerSends
+			if rateLimited {
+				opt.RecvRateLimitRate = rapid.SampledFrom([]float64{0.1, 0.05}).Draw(t, "rate")
+				opt.RecvRateLimitBurst = rapid.IntRange(1, 2).Draw(t, "burst")
+				peerSends = true
 			}
-			defer c.CloseNow()
-			if err := c.Write(context.Background(), websocket.MessageText, []byte(`["CLOSE","go"]`)); err != nil {
-				t.Fatalf("write: %v", err)
-			}
-			<-f.started
-			stopSend := make(chan struct{})
-			if peerSends {
-				go func() {
-					for i := 0; ; i++ {
-						select {
-						case <-stopSend:
-							return
-						default:
-						}
-						wctx, wcancel := context.WithTimeout(context.Background(), 200*time.Millisecond)
-						c.Write(wctx, websocket.MessageText, []byte(`["CLOSE","more"]`))
-						wcancel()
-						time.Sleep(5 * time.Millisecond)
-					}
+			desc := map[string]any{"send_timeout": opt.SendTimeout.String(), "ping": opt.PingDuration.String(), "peer_keeps_sending": peerSends, "recv_rate": opt.RecvRateLimitRate, "recv_burst": opt.RecvRateLimitBurst, "ending": "request context cancelled while every loop is blocked"}
+			attempt := func() (time.Duration, bool) {
+				f := &flooder{started: make(chan struct{}), ended: make(chan time.Time, 1)}
+				relay := mocrelay.NewRelay(f, &opt)
+				returned := make(chan time.Time, 1)
+				baseCtx, cancelBase := context.WithCancel(context.Background())
+				defer cancelBase()
+				srv := httptest.NewUnstartedServer(http.HandlerFunc(func(w http.ResponseWriter, r *http.Request) {
+					relay.ServeHTTP(w, r)
+					returned <- time.Now()
+				}))
+				srv.Config.BaseContext = func(net.Listener) context.Context { return baseCtx }
+				srv.Start()
+				defer func() {
+					srv.CloseClientConnections()
+					srv.Close()
 				}()
+				c, err := dial("ws" + strings.TrimPrefix(srv.URL, "http"))
+				if err != nil {
+					t.Fatalf("dial: %v", err)
+				}
+				defer c.CloseNow()
+				if err := c.Write(context.Background(), websocket.MessageText, []byte(`["CLOSE","go"]`)); err != nil {
+					t.Fatalf("write: %v", err)
+				}
+				<-f.started
+				stopSend := make(chan struct{})
+				if peerSends {
+					go func() {
+						for i := 0; ; i++ {
+							select {
+							case <-stopSend:
+								return
+							default:
+							}
+							wctx, wcancel := context.WithTimeout(context.Background(), 200*time.Millisecond)
+							c.Write(wctx, websocket.MessageText, []byte(`["CLOSE","more"]`))
+							wcancel()
+							time.Sleep(5 * time.Millisecond)
+						}
+					}()
+				}
+				defer close(stopSend)
+				time.Sleep(300 * time.Millisecond) // buffers fill; the write loop is blocked in conn.Write
+				t0 := time.Now()
+				cancelBase()
+				select {
+				case at := <-returned:
+					return at.Sub(t0), true
+				case <-time.After(8 * time.Second):
+					return 8 * time.Second, false
+				}
 			}
-			defer close(stopSend)
-			time.Sleep(300 * time.Millisecond) // buffers fill; the write loop is blocked in conn.Write
-			t0 := time.Now()
-			cancelBase()
-			select {
-			case at := <-returned:
-				return at.Sub(t0), true
-			case <-time.After(8 * time.Second):
-				return 8 * time.Second, false
+			d, ok := attempt()
+			if !ok || d > 3*time.Second {
+				// a loaded machine must not raise a false alarm: once more
+				d2, ok2 := attempt()
+				if !ok2 || d2 > 3*time.Second {
+					hx.Fail(t, ev.Failure{Property: "C13", Signature: "websocket-cancel-slow", Clause: "whenever a session's context is cancelled - whether or not the peer is still reading - serving returns promptly (WebSocket session)",
+						Case: desc, Observed: fmt.Sprintf("Relay.ServeHTTP returned %v / %v after the cancellation (two attempts)", d, d2), Expected: "well under 3 s (normal: milliseconds)"})
+				}
+				d = d2
 			}
+			col.Label("websocket-cancel")
+			col.Add("ws_cancel_latency_ms_sum", d.Milliseconds())
+			col.Case(true, hx.JSON(desc), func() any { return desc })
 		}
-		d, ok := attempt()
-		if !ok || d > 3*time.Second {
-			// a loaded machine must not raise a false alarm: once more
-			d2, ok2 := attempt()
-			if !ok2 || d2 > 3*time.Second {
-				hx.Fail(t, ev.Failure{Property: "C13", Signature: "websocket-cancel-slow", Clause: "whenever a session's context is cancelled - whether or not the peer is still reading - serving returns promptly (WebSocket session)",
-					Case: desc, Observed: fmt.Sprintf("Relay.ServeHTTP returned %v / %v after the cancellation (two attempts)", d, d2), Expected: "well under 3 s (normal: milliseconds)"})
-			}
-			d = d2
-		}
-		col.Label("websocket-cancel")
-		col.Add("ws_cancel_latency_ms_sum", d.Milliseconds())
-		col.Case(true, hx.JSON(desc), func() any { return desc })
 	})
 }
 
@@ -897,6 +907,98 @@ func TestC13LargeAnswerCut(t *testing.T) {
 			}
 		}
 		col.Label("scenario:large-answer-cut")
+		col.Case(true, hx.JSON(desc), func() any { return desc })
+	})
+}
+
+// TestC13RouterManySessions: hundreds of sessions come and go on one router (and hundreds of
+// subscriptions within one session); after each of them nothing of it remains in the registry.
+func TestC13RouterManySessions(t *testing.T) {
+	col := ev.For("C13").SetRule(c13Rule)
+	rapid.Check(t, func(t *rapid.T) {
+		router := mocrelay.NewRouterHandler(rapid.IntRange(1, 4).Draw(t, "buflen"))
+		var h mocrelay.Handler = router
+		wrap := rapid.SampledFrom([]string{"bare", "bare", "logging", "maxsubs"}).Draw(t, "wrap")
+		switch wrap {
+		case "logging":
+			h = mocrelay.Middleware(mocrelay.NewLoggingMiddleware(slog.New(slog.NewTextHandler(io.Discard, nil))))(h)
+		case "maxsubs":
+			h = mocrelay.Middleware(mocrelay.NewMaxSubscriptionsMiddleware(1000))(h)
+		}
+		sessions := rapid.SampledFrom([]int{255, 256, 257, 300, 520, 1030}).Draw(t, "sessions")
+		closesInOne := rapid.SampledFrom([]int{0, 0, 256, 300, 600}).Draw(t, "closes_in_one_session")
+		desc := map[string]any{"composition": wrap + " router", "sessions": sessions, "closes_in_one_session": closesInOne}
+		time.Sleep(time.Millisecond)
+		base, _ := mocrelayGoroutines()
+		run := func(i int, nreq, nclose int, byClose bool) {
+			ctx, cancel := context.WithCancel(context.Background())
+			defer cancel()
+			recv := make(chan mocrelay.ClientMsg)
+			send := make(chan mocrelay.ServerMsg)
+			ret := make(chan error, 1)
+			go func() { ret <- h.ServeNostr(ctx, send, recv) }()
+			put := func(m mocrelay.ClientMsg) {
+				for {
+					select {
+					case recv <- m:
+						return
+					case <-send:
+					case <-time.After(10 * time.Second):
+						hx.Fail(t, ev.Failure{Property: "C13", Signature: "ended-early", Clause: "the session takes client messages", Case: desc, Observed: fmt.Sprintf("session %d stalled", i)})
+					}
+				}
+			}
+			for k := 0; k < nreq; k++ {
+				put(&mocrelay.ClientReqMsg{SubscriptionID: fmt.Sprint("s", k), ReqFilters: []*mocrelay.ReqFilter{{Kinds: []int64{1}}}})
+			}
+			for k := 0; k < nclose; k++ {
+				put(&mocrelay.ClientCloseMsg{SubscriptionID: fmt.Sprint("s", k)})
+			}
+			if byClose {
+				close(recv)
+			} else {
+				cancel()
+			}
+			deadline := time.After(5 * time.Second)
+			for {
+				select {
+				case <-ret:
+					return
+				case <-send:
+				case <-deadline:
+					hx.Fail(t, ev.Failure{Property: "C13", Signature: "serve-does-not-return", Clause: "after the session is ended ServeNostr returns promptly", Case: desc, Observed: fmt.Sprintf("session %d did not return", i)})
+				}
+			}
+		}
+		check := func(after string) {
+			if s, c := router.VerifSubscriptionCount(); s != 0 || c != 0 {
+				hx.Fail(t, ev.Failure{Property: "C13", Signature: "router-registry-leak", Clause: "afterwards nothing of the session remains: its live subscriptions are gone from the router", Case: desc,
+					Observed: fmt.Sprintf("%s: %d subscriptions of %d connections still registered", after, s, c)})
+			}
+		}
+		if closesInOne > 0 {
+			run(-1, closesInOne+3, closesInOne, false)
+			check(fmt.Sprintf("after a session with %d REQs and %d CLOSEs", closesInOne+3, closesInOne))
+		}
+		for i := 0; i < sessions; i++ {
+			run(i, 1+i%3, i%2, i%5 == 4)
+			if i%64 == 63 || i == sessions-1 || (i >= 250 && i < 262) {
+				check(fmt.Sprintf("after session %d", i+1))
+			}
+		}
+		deadline := time.Now().Add(5 * time.Second)
+		for {
+			cur, sample := mocrelayGoroutines()
+			if cur <= base {
+				break
+			}
+			if time.Now().After(deadline) {
+				hx.Fail(t, ev.Failure{Property: "C13", Signature: "goroutine-leak", Clause: "every goroutine the sessions started has exited", Case: desc,
+					Observed: fmt.Sprintf("%d goroutines with a mocrelay frame, baseline %d; one of them: %s", cur, base, firstLines(sample, 14))})
+			}
+			time.Sleep(2 * time.Millisecond)
+		}
+		col.Label("scenario:router-many-sessions")
 		col.Case(true, hx.JSON(desc), func() any { return desc })
 	})
 }
